@@ -289,8 +289,10 @@ def _configs(name, tier):
                     out.append({"substream": {"content": list(range(10, 10 + n))}, "end_of_file": eof, "sector_length": L})
     elif base == "FileStream":
         # long, non-contiguous chains: a single read spanning several whole middle sectors
-        for L, sl in ((2, [4, 1, 3, 0, 5]), (1, [5, 3, 1, 4, 2, 0]), (2, [0, 2, 4, 1])):
-            out.append({"substream": {"content": list(range(10, 10 + 6 * L))}, "end_of_file": L * len(sl),
+        # ... incl. runs whose END POINTS look physically consecutive while a sector in between lies elsewhere (2,6,4 / 1,4,3 / 1,5,3)
+        for L, sl in ((2, [4, 1, 3, 0, 5]), (1, [5, 3, 1, 4, 2, 0]), (2, [0, 2, 4, 1]), (2, [0, 2, 6, 4, 1]), (1, [5, 1, 4, 3, 0]),
+                      (3, [6, 1, 5, 3, 0])):
+            out.append({"substream": {"content": list(range(10, 10 + 7 * L))}, "end_of_file": L * len(sl),
                         "sector_length": L, "sector_list": sl})
         for L in (1, 2, 3):
             for nsec in (1, 2, 3):
@@ -525,7 +527,7 @@ def _oracle_interleave(inputs, kind, val, env):
 def _small_interleave(tier, seed, shard=(0, 1)):
     import itertools
     names = ["fileA", "fileB", "offset_on_fileA", "wrapper_on_fileB", "offset_on_base", "reversed_on_fileB"]
-    per_view_ops = [("read", 2), ("read", 4), ("seek", 2), ("read", 2)]
+    per_view_ops = [("read", 4), ("seek", 2), ("read", 4), ("read", 2)]
     k = 0
     # a view and its own substream are not independent streams (the substream IS the upper view's handle,
     # and the contracts say so: "modifies self.substream.cur"); only streams that do not contain one another are paired
@@ -534,7 +536,7 @@ def _small_interleave(tier, seed, shard=(0, 1)):
     pairs = [p for p in itertools.combinations(names, 2) if indep(*p)] + \
         ([("fileA", "fileB", "offset_on_base"), ("offset_on_fileA", "wrapper_on_fileB", "reversed_on_fileB")] if tier != "quick" else [])
     for vs in pairs:
-        nops = 3 if len(vs) == 2 else 2
+        nops = 4 if len(vs) == 2 else 3
         seqs = {v: [(v,) + op for op in per_view_ops[:nops]] for v in vs}
         # all interleavings preserving per-view order
         slots = [v for v in vs for _ in range(nops)]
@@ -552,7 +554,7 @@ def _small_interleave(tier, seed, shard=(0, 1)):
 
 CONCRETE["bounded:shared_handle_interleavings"] = {
     "build": _build_interleave, "small": _small_interleave, "oracle": _oracle_interleave, "shards": 4,
-    "bound": "every order-preserving interleaving of 3 operations per view (read 2, read 4, seek 2, read 2) for every pair of 6 views "
-             "(two sector-chained files, windows on them, a window on the base, a sample-reversed window) sharing ONE handle; thorough adds two triples",
+    "bound": "every order-preserving interleaving of 4 operations per view (read 4, seek 2, read 4, read 2: a read straight after a seek with the sibling touched in between included) for every pair of 6 views "
+             "(two sector-chained files, windows on them, a window on the base, a sample-reversed window) sharing ONE handle; thorough adds two triples (3 operations each)",
     "timeout_s": 5.0,
 }
